@@ -23,6 +23,10 @@ EXPLANATION = (
 ASSUMPTIONS = ["Meyer's range-based set reconciliation algorithm is correct when its comparisons are as specified", "blake3 collision resistance"]
 
 
+
+EXPLANATION += ' (R3, round 8) session accounting is read off one evaluated session step (Replica::sync_process_message on replica open/closed x the store yielding a reply / the end / an error). (R8) the counts a side reports are those of its last step (= C10.R1/R2 session tables). (R9) the opening message evaluated: one part, the fingerprint of the full circular range anchored at the first key; a failing store call is an error; handed out only while the replica is open.'
+
+
 def r1(ctx):
     """the decisions of process_message as evaluated tables (K6', see eval_process_message): the function's MIR is evaluated
     on the cells below, so the verdict does not depend on how the decisions are spelled (closures, helpers, adaptors)"""
